@@ -24,8 +24,19 @@ def run(rep, tier, seed, b, prop_key=None, clause=None, gen=None, ident=None):
     n = 9000 if tier == 'quick' else 250000
     tabs = E.tables_for(rng, 6 if tier == 'quick' else 30)
     smis = E.gen_smiles_cases(rng, n, **gen)
+    smis += E.ring_symbol_cases(rng, 900 if tier == 'quick' else 20000)
     items = [(tabs[i % len(tabs)] if rng.random() < 0.5 else tabs[0], x, True, False) for i, x in enumerate(smis)]
+    # the same spelling under a permissive table and then, in the same process, under tighter ones
+    # (chunks are processed in order by one worker: a result carried over from the first call would show in the second)
+    presets = {k: sf().get_preset_constraints(k) for k in ('default', 'octet_rule')}
+    hyper = [x for x in smis if any(g in x for g in ('S(=O)', '(=O)=O', 'P(=O)', 'N(=O)', 'Cl(=O)', '[N+]', 'S(', 'P('))][:400 if tier == 'quick' else 5000]
+    seq_items = []
+    for x in hyper:
+        seq_items += [(E.relaxed_table(), x, True, False), (presets['octet_rule'], x, True, False), (presets['default'], x, True, False)]
+    n_main = len(items)
+    items += seq_items
     res = core.pmap('enc_side', 'work', items, extra={'roundtrip': True, 'reencode': False}, chunk=300)
+    rep.extra['table_switch_sequences'] = len(seq_items) // 3
     for it, r in zip(items, res):
         rep.evaluations += 1
         rep.impl_traces += 1
@@ -71,3 +82,30 @@ def replay(data, prop_key=None):
 
 def known(f):
     return None
+
+
+def search(rep, tier, seed, b, dis, prop_key=None, clause=None, ident=None):
+    """the tie or a proof is broken: re-spell the molecules on which model and implementation disagree many times
+    and look for a spelling on which the property itself fails"""
+    import gen_smiles
+    prop_key = prop_key or PROP_KEY
+    clause = clause or CLAUSE
+    rng = core.rng_for(seed, (ident or ID) + '/search')
+    seeds = [dd['input'] for dd in dis if isinstance(dd.get('input'), dict) and 'smiles' in dd['input']][:40]
+    items = []
+    for inp in seeds:
+        m = E.mol_of(inp['smiles'])
+        items.append((inp['table'], inp['smiles'], True, False))
+        if m is None:
+            continue
+        for _ in range(150):
+            x, _o = gen_smiles.respell(m, rng, digits_after_branches=0.3)
+            items.append((inp['table'], x, True, False))
+    items += [(E.relaxed_table(), x, True, False) for x in E.gen_smiles_cases(rng, 6000, mutate=0.3)]
+    res = core.pmap('enc_side', 'work', items, extra={'roundtrip': True}, chunk=300)
+    for it, r in zip(items, res):
+        rep.evaluations += 1
+        rt = r.get('rt') or {}
+        if 'ok' in r['impl'] and rt.get('read_in') and not (rt.get('read_out') and rt.get(prop_key)):
+            rep.oracle_failures.append({'clause': clause, 'input': {'table': it[0], 'smiles': it[1]},
+                                        'impl': {'selfies': r['impl']['ok'], 'smiles_out': r.get('decoded', {}).get('ok')}, 'oracle': rt})
